@@ -161,3 +161,17 @@ func workerLoop(handle func(req json.RawMessage) interface{}) {
 		}
 	}
 }
+
+// rerunFailed: a worker that died or timed out may have been a victim of the machine (memory, descriptors,
+// load) rather than of the request. Each such request is run once more, alone, with twice the time; only a
+// request that fails again is reported as crashed / timed out.
+func rerunFailed(name string, reqs []json.RawMessage, res []isoResult, perReq time.Duration) {
+	for i := range res {
+		if res[i].Crashed || res[i].Timeout {
+			again := runIsolated(name, reqs[i:i+1], 1, 2*perReq)
+			if len(again) == 1 && !again[0].Crashed && !again[0].Timeout {
+				res[i] = again[0]
+			}
+		}
+	}
+}
